@@ -127,9 +127,17 @@ func findFunc(pkgDir, recv, name string) (*ast.FuncDecl, *token.FileSet) {
 type asWalker struct {
 	fset   *token.FileSet
 	handle string // variable bound to the *os.File by os.CreateTemp / os.Create
+	// inside an inlined callee: parameter name -> Coq fref term of the argument it was called with
+	// (the caller's handle, handle.Name(), or a constant path)
+	refs map[string]string
 }
 
 func (w *asWalker) fref(e ast.Expr) string {
+	if id, ok := e.(*ast.Ident); ok {
+		if t, ok := w.refs[id.Name]; ok {
+			return t
+		}
+	}
 	if ce, ok := e.(*ast.CallExpr); ok && len(ce.Args) == 0 {
 		if se, ok := ce.Fun.(*ast.SelectorExpr); ok && se.Sel.Name == "Name" {
 			if id, ok := se.X.(*ast.Ident); ok && w.handle != "" && id.Name == w.handle {
@@ -160,6 +168,9 @@ func isVerifOrLog(ce *ast.CallExpr) bool {
 
 // op returns the Coq term for a file-affecting call, or "" if the call is not one.
 func (w *asWalker) op(ce *ast.CallExpr) string {
+	if fd := samePkgCallee(ce); fd != nil && !isVerifOrLog(ce) && calleeHasOps(fd, 0, nil) {
+		return "(OpOther " + coqText("call performing file operations in a position that cannot be inlined: "+srcText(w.fset, ce)) + ")"
+	}
 	se, ok := ce.Fun.(*ast.SelectorExpr)
 	if !ok {
 		// a plain function receiving the handle
@@ -299,37 +310,190 @@ func preludeText(fset *token.FileSet, st ast.Stmt) string {
 	return srcText(fset, st)
 }
 
-func genAutoSave() {
-	fd, fset := findFunc("repl", "", "AutoSave")
-	if fd == nil {
-		fatal("repl.AutoSave not found")
+type asStep struct {
+	op    string
+	onerr []string
+}
+
+type asCollector struct {
+	steps   []asStep
+	prelude []string
+}
+
+const maxInlineDepth = 2
+
+// samePkgCallee resolves a call to a function (or uniquely named method) of package repl declared with a body.
+func samePkgCallee(ce *ast.CallExpr) *ast.FuncDecl {
+	p := pkgs["repl"]
+	if p == nil {
+		return nil
 	}
-	w := &asWalker{fset: fset}
-	type step struct {
-		op    string
-		onerr []string
+	name, method := "", false
+	switch f := ce.Fun.(type) {
+	case *ast.Ident:
+		name = f.Name
+	case *ast.SelectorExpr:
+		if x, ok := f.X.(*ast.Ident); ok {
+			for _, file := range p.files { // a package-qualified call is not a method call
+				for _, im := range file.Imports {
+					path, _ := strconv.Unquote(im.Path.Value)
+					base := path[strings.LastIndex(path, "/")+1:]
+					if (im.Name != nil && im.Name.Name == x.Name) || (im.Name == nil && base == x.Name) {
+						return nil
+					}
+				}
+			}
+		}
+		name, method = f.Sel.Name, true
+	default:
+		return nil
 	}
-	var steps []step
-	var prelude []string
-	stmts := fd.Body.List
+	var found *ast.FuncDecl
+	for _, file := range p.files {
+		for _, d := range file.Decls {
+			fd, ok := d.(*ast.FuncDecl)
+			if !ok || fd.Body == nil || fd.Name.Name != name || (fd.Recv != nil) != method {
+				continue
+			}
+			if found != nil {
+				return nil // ambiguous (twin files, several receiver types): not inlined
+			}
+			found = fd
+		}
+	}
+	return found
+}
+
+// calleeHasOps: does the body of fd (callees inlined) contain a file-affecting call?
+var hasOpsMemo = map[*ast.FuncDecl]int{} // 1 = being computed, 2 = no, 3 = yes
+
+func calleeHasOps(fd *ast.FuncDecl, depth int, stack []string) bool {
+	switch hasOpsMemo[fd] {
+	case 1, 2: // re-entered (recursive function): the outer computation decides
+		return false
+	case 3:
+		return true
+	}
+	hasOpsMemo[fd] = 1
+	w := &asWalker{fset: pkgs["repl"].fset, refs: map[string]string{}}
+	col := &asCollector{}
+	w.walk(fd.Body.List, col, false, 0, []string{fd.Name.Name})
+	if len(col.steps) > 0 {
+		hasOpsMemo[fd] = 3
+		return true
+	}
+	hasOpsMemo[fd] = 2
+	return false
+}
+
+func returnsError(fd *ast.FuncDecl) bool {
+	if fd.Type.Results == nil {
+		return false
+	}
+	for _, r := range fd.Type.Results.List {
+		if id, ok := r.Type.(*ast.Ident); ok && id.Name == "error" {
+			return true
+		}
+	}
+	return false
+}
+
+// flatten rewrites `if x := call(); err != nil { ... }` (Init form, condition exactly err != nil, no else) into the
+// statement followed by the plain `if err != nil { ... }` block the walker knows.
+func flatten(stmts []ast.Stmt) []ast.Stmt {
+	var out []ast.Stmt
+	for _, st := range stmts {
+		if ifs, ok := st.(*ast.IfStmt); ok && ifs.Init != nil && ifs.Else == nil && isErrNotNil(ifs.Cond) {
+			switch ifs.Init.(type) {
+			case *ast.AssignStmt, *ast.ExprStmt:
+				out = append(out, ifs.Init, &ast.IfStmt{If: ifs.If, Cond: ifs.Cond, Body: ifs.Body})
+				continue
+			}
+		}
+		out = append(out, st)
+	}
+	return out
+}
+
+// callOf returns the call when the statement is exactly `... := call(...)`, `... = call(...)` or `call(...)`.
+func callOf(st ast.Stmt) *ast.CallExpr {
+	switch s := st.(type) {
+	case *ast.AssignStmt:
+		if len(s.Rhs) == 1 {
+			if ce, ok := s.Rhs[0].(*ast.CallExpr); ok {
+				return ce
+			}
+		}
+	case *ast.ExprStmt:
+		if ce, ok := s.X.(*ast.CallExpr); ok {
+			return ce
+		}
+	}
+	return nil
+}
+
+func assignsErr(st ast.Stmt) bool {
+	if as, ok := st.(*ast.AssignStmt); ok {
+		for _, l := range as.Lhs {
+			if id, ok := l.(*ast.Ident); ok && id.Name == "err" {
+				return true
+			}
+		}
+	}
+	return false
+}
+
+// walk appends the skeleton of a statement list to col.  hasPrior: file operations already happened before this
+// list (in the caller).  A call, standing alone in a statement, to a function of the same package that performs
+// file operations is INLINED (up to maxInlineDepth levels): its statements are walked in place with its parameters
+// bound to the handle / path arguments, its own `if err != nil { ...; return ..., err }` blocks are the error
+// blocks of its steps, and the caller's error block after the call is appended to every inlined step.  What cannot
+// be inlined faithfully (recursion, too deep, the error of the inlined call not checked by the caller, a call nested
+// in an expression or in a compound statement) becomes OpOther.
+func (w *asWalker) walk(stmts []ast.Stmt, col *asCollector, hasPrior bool, depth int, stack []string) {
+	fset := w.fset
+	stmts = flatten(stmts)
+	other := func(what string) string { return "(OpOther " + coqText(what) + ")" }
+	var group []int      // indices in col.steps produced by the previous statement
+	groupInlined := false // ... by an inlined call (its caller-side error block applies to all of them)
+	unchecked := false    // the previous statement's error result has not been looked at yet
+	flushUnchecked := func() {
+		if unchecked && len(group) > 0 {
+			for _, g := range group {
+				col.steps[g].onerr = append(col.steps[g].onerr, other("error not checked right after the call"))
+			}
+		}
+		unchecked = false
+	}
 	for i, st := range stmts {
+		prior := hasPrior || len(col.steps) > 0
 		// skip verif hooks and logging statements everywhere
 		if es, ok := st.(*ast.ExprStmt); ok {
 			if ce, ok := es.X.(*ast.CallExpr); ok && isVerifOrLog(ce) && len(w.opsIn(ce)) == 0 {
 				continue
 			}
 		}
-		// the error block of the preceding step
-		if ifs, ok := st.(*ast.IfStmt); ok && len(steps) > 0 && ifs.Init == nil && ifs.Else == nil && isErrNotNil(ifs.Cond) {
-			last := &steps[len(steps)-1]
-			last.onerr = append(last.onerr, w.opsIn(ifs.Body)...)
+		// the error block of the preceding step(s)
+		if ifs, ok := st.(*ast.IfStmt); ok && len(group) > 0 && ifs.Init == nil && ifs.Else == nil && isErrNotNil(ifs.Cond) {
+			blockOps := w.opsIn(ifs.Body)
 			if n := len(ifs.Body.List); n == 0 {
-				last.onerr = append(last.onerr, "(OpOther "+coqText("error ignored: "+srcText(fset, ifs))+")")
+				blockOps = append(blockOps, other("error ignored: "+srcText(fset, ifs)))
 			} else if _, isRet := ifs.Body.List[n-1].(*ast.ReturnStmt); !isRet {
-				last.onerr = append(last.onerr, "(OpOther "+coqText("error block does not return: "+srcText(fset, ifs))+")")
+				blockOps = append(blockOps, other("error block does not return: "+srcText(fset, ifs)))
 			}
+			targets := group[len(group)-1:]
+			if groupInlined {
+				targets = group
+			}
+			for _, g := range targets {
+				col.steps[g].onerr = append(col.steps[g].onerr, blockOps...)
+			}
+			unchecked = false
+			group = nil
 			continue
 		}
+		flushUnchecked()
+		group, groupInlined = nil, false
 		// bind the handle variable
 		if as, ok := st.(*ast.AssignStmt); ok && len(as.Rhs) == 1 {
 			if ce, ok := as.Rhs[0].(*ast.CallExpr); ok {
@@ -337,38 +501,134 @@ func genAutoSave() {
 					if id, ok := se.X.(*ast.Ident); ok && id.Name == "os" && (se.Sel.Name == "CreateTemp" || se.Sel.Name == "Create" || se.Sel.Name == "OpenFile") {
 						if lhs, ok := as.Lhs[0].(*ast.Ident); ok {
 							w.handle = lhs.Name
+							delete(w.refs, lhs.Name)
 						}
 					}
 				}
 			}
 		}
+		// a call standing alone in the statement to a function of this package that performs file operations: inline
+		if ce := callOf(st); ce != nil && !isVerifOrLog(ce) {
+			if fd := samePkgCallee(ce); fd != nil {
+				passesHandle := false
+				for _, a := range ce.Args {
+					if r := w.fref(a); r == "FHandle" {
+						passesHandle = true
+					}
+				}
+				if calleeHasOps(fd, depth, stack) || passesHandle {
+					argOps := 0
+					for _, a := range ce.Args {
+						argOps += len(w.opsIn(a))
+					}
+					recursive := false
+					for _, n := range stack {
+						recursive = recursive || n == fd.Name.Name
+					}
+					before := len(col.steps)
+					switch {
+					case recursive || depth >= maxInlineDepth || argOps > 0 || ce.Ellipsis.IsValid():
+						col.steps = append(col.steps, asStep{op: other("call not inlined (recursion, nesting depth or file operations in its arguments): " + srcText(fset, ce))})
+					default:
+						w2 := &asWalker{fset: fset, refs: map[string]string{}}
+						pi := 0
+						if fd.Type.Params != nil {
+							for _, f := range fd.Type.Params.List {
+								for _, nm := range f.Names {
+									if pi < len(ce.Args) {
+										a := ce.Args[pi]
+										r := w.fref(a)
+										if !strings.HasPrefix(r, "(FUnknown") {
+											w2.refs[nm.Name] = r
+											if id, ok := a.(*ast.Ident); ok && r == "FHandle" && (id.Name == w.handle || w.refs[id.Name] == "FHandle") {
+												w2.handle = nm.Name // the *os.File itself is passed: method calls on the parameter are handle operations
+											}
+										}
+									}
+									pi++
+								}
+							}
+						}
+						sub := &asCollector{}
+						w2.walk(fd.Body.List, sub, prior, depth+1, append(append([]string{}, stack...), fd.Name.Name))
+						if !prior {
+							col.prelude = append(col.prelude, sub.prelude...)
+						}
+						col.steps = append(col.steps, sub.steps...)
+					}
+					for g := before; g < len(col.steps); g++ {
+						group = append(group, g)
+					}
+					groupInlined = true
+					// the callee reports failures through its error result: the caller must look at it next
+					unchecked = returnsError(fd)
+					if unchecked && !assignsErr(st) {
+						flushUnchecked() // result dropped on the floor
+					}
+					continue
+				}
+			}
+		}
 		var ops []string
+		plain := false
 		switch s := st.(type) {
 		case *ast.AssignStmt, *ast.ExprStmt:
 			ops = w.opsIn(s)
+			plain = true
 		case *ast.DeferStmt:
 			if o := w.opsIn(s.Call); len(o) > 0 {
-				ops = []string{"(OpOther " + coqText(srcText(fset, s)) + ")"}
+				ops = []string{other(srcText(fset, s))}
+			}
+		case *ast.ReturnStmt:
+			// `return call(...)` as the last statement: the call's error goes straight to the caller, which is the
+			// same as `x, err := call(...); if err != nil { return ..., err }; return x, nil`
+			if o := w.opsIn(s); len(o) > 0 {
+				if ce, ok := s.Results[0].(*ast.CallExpr); ok && i == len(stmts)-1 && len(s.Results) == 1 && samePkgCallee(ce) == nil {
+					ops = o
+				} else {
+					ops = []string{other("nested: " + srcText(fset, st))}
+				}
 			}
 		default: // compound statement: any file operation inside is conditional / repeated
 			if o := w.opsIn(st); len(o) > 0 {
-				ops = []string{"(OpOther " + coqText("nested: "+srcText(fset, st)) + ")"}
-			} else if len(steps) > 0 && hasReturn(st) && i != len(stmts)-1 {
-				ops = []string{"(OpOther " + coqText("early return between steps: "+srcText(fset, st)) + ")"}
+				ops = []string{other("nested: " + srcText(fset, st))}
+			} else if prior && hasReturn(st) && i != len(stmts)-1 {
+				ops = []string{other("early return between steps: " + srcText(fset, st))}
 			}
 		}
 		if len(ops) == 0 {
-			if len(steps) == 0 {
-				prelude = append(prelude, preludeText(fset, st))
+			if !prior {
+				col.prelude = append(col.prelude, preludeText(fset, st))
 			} else if _, ok := st.(*ast.ReturnStmt); ok && i != len(stmts)-1 {
-				steps = append(steps, step{op: "(OpOther " + coqText("early return between steps: "+srcText(fset, st)) + ")"})
+				col.steps = append(col.steps, asStep{op: other("early return between steps: " + srcText(fset, st))})
 			}
 			continue
 		}
 		for _, o := range ops {
-			steps = append(steps, step{op: o})
+			col.steps = append(col.steps, asStep{op: o})
+			group = append(group, len(col.steps)-1)
+		}
+		// a fallible call whose error is assigned must be checked by the next statement; `_ = f()` / bare `f()` is an
+		// error that is never looked at
+		if plain {
+			unchecked = true
+			if !assignsErr(st) {
+				flushUnchecked()
+			}
 		}
 	}
+	flushUnchecked()
+}
+
+func genAutoSave() {
+	fd, fset := findFunc("repl", "", "AutoSave")
+	if fd == nil {
+		fatal("repl.AutoSave not found")
+	}
+	w := &asWalker{fset: fset, refs: map[string]string{}}
+	col := &asCollector{}
+	w.walk(fd.Body.List, col, false, 0, []string{"AutoSave"})
+	steps, prelude := col.steps, col.prelude
 	stateFile, ok := stringConst("repl", "AutoSaveFile", 0)
 	if !ok {
 		fatal("repl.AutoSaveFile is not a resolvable string constant")
